@@ -193,6 +193,11 @@ mod real {
                 let n = if thorough && rng.chance(1, 6) { 65535 } else { rng.range(600, 6000) };
                 let mut m: Vec<u8> = (0..n).map(|_| rng.byte()).collect();
                 m[2] &= 0x7f;
+                if rng.chance(2, 3) {
+                    // all four counts zero: certainly answered (random counts usually announce several
+                    // questions, which is response-less)
+                    for b in &mut m[4..12] { *b = 0; }
+                }
                 m
             }
             15 => query(id, names[rng.below(names.len())], 1, 0x2800), // opcode 5: NOTIMP
@@ -689,6 +694,7 @@ mod real {
                             for (seg, follow) in [(usize::MAX, true), (16384, true), (1021, false)] {
                                 let mut m: Vec<u8> = (0..size).map(|_| rng.byte()).collect();
                                 m[2] &= 0x7f;
+                                for b in &mut m[4..12] { *b = 0; } // no question: answered (FORMERR), not ignored
                                 let mut stream = frame(&m);
                                 if follow {
                                     stream.extend_from_slice(&frame(&query(rng.next() as u16, "gen.test.", 1, 0)));
